@@ -32,6 +32,7 @@ type Event struct {
 	Seqs map[int]*SeqV // snapshot of []byte arguments at event time
 	Snaps map[int]*SliceSnap // snapshot of slice arguments (any element type) at event time
 	Heap map[string]*Term
+	Locks map[string]int // mutexes held when the event happened (lockKey -> 1 read, 2 write)
 }
 
 type deferred struct {
